@@ -94,11 +94,21 @@ def wake_order_program(rng):
         if rng.random() < 0.5:
             killer.append({"op": "postpone", "k": 1})
     killer.append({"op": "sleep", "d": 1})
-    if kind == "own-comparison":
-        killer.append({"op": "tr_set", "on": "X", "to": 2})
+    fire = {"op": "tr_set", "on": "X", "to": 2} if kind == "own-comparison" \
+        else {"op": "flag_set", "on": "F"}
+    if kind != "until-flag" and rng.random() < 0.4:
+        # a false alarm first: the notification fires and is withdrawn again (by an activity
+        # that is served before the woken waiters) - they go back to waiting, in their old order
+        undo = {"op": "tr_set", "on": "X", "to": 0} if kind == "own-comparison" \
+            else {"op": "flag_set", "on": "F", "to": False}
+        # (started one after the other, so at t=2 `undo` is served right behind `early`)
+        actors.append({"name": "early", "ops": [{"op": "sleep", "d": 2}, fire]})
+        actors.append({"name": "undo", "ops": [{"op": "sleep", "d": 2}, undo]})
+        killer.append({"op": "sleep", "d": 1})
+        actors.append({"name": "killer", "ops": killer + [fire]})
     else:
-        killer.append({"op": "flag_set", "on": "F"})
-    actors.append({"name": "killer", "ops": killer})
+        killer.append(fire)
+        actors.append({"name": "killer", "ops": killer})
     return {"scenario": {"resources": resources, "actors": actors}, "plan": [], "config": {},
             "engine": "world", "family": "wake-order", "leavers": ["q%d" % i for i in leavers]}
 
